@@ -26,7 +26,7 @@ T = {
         text="TLC explores every call history on one OverlappingState against the overlapping oracle (prefix, exactly once, stays None); the real per-state match lists are compared with the specification for every reachable state; real iterator/stepwise results are validated line by line.",
         ref="6 C03"),
     "C04": dict(
-        tech="TLA+ refinement models of the re-encodings (ACRepr contiguous state encoding, ACDfaRow byte classes + DFA row filling) model-checked with TLC; product exploration (bisimulation up to observations) of each real automaton representation/option with the one TLA+ specification automaton, by TLC; Debug-dump equality of the top-level searcher with the low-level automaton built with the same options; trace validation of identical calls through all kinds and the top-level searcher",
+        tech="TLA+ refinement models of the storage and re-encodings (ACStore link chain + dense copy + byte classes of the noncontiguous NFA, ACRepr contiguous state encoding, ACDfaRow byte classes + DFA row filling) model-checked with TLC; product exploration (bisimulation up to observations) of each real automaton representation/option with the one TLA+ specification automaton, by TLC; Debug-dump equality of the top-level searcher with the low-level automaton built with the same options; trace validation of identical calls through all kinds and the top-level searcher",
         text="Every representation (noncontiguous with 4 dense depths, contiguous with 6 dense-depth/byte-class settings, DFA with 3 start kinds x byte classes, with/without prefilter) is shown observationally equivalent to the same specification automaton on its entire reachable product, hence to each other for haystacks of every length; API-level calls through all seven kinds/entry levels are validated against the oracle.",
         ref="6 C04"),
     "C05": dict(
@@ -38,11 +38,11 @@ T = {
         text="The window arithmetic, bucket assignment, candidate over-approximation and (position, bucket, semantic order) verification are exhausted for small vector widths over all patterns/haystacks/spans against the leftmost oracle (PackedCorrect, Coverage, LoadInBounds). On this CPU (SSSE3+AVX2) Rabin-Karp, slim 128, slim 256, fat 256, only_teddy and the default are each run on haystacks of length 0..67 with a match planted at every offset, fillers sharing nybbles, colliding fingerprints, >8/>16 prefixes and up to 128 patterns; find_in and find_iter results are validated by TLC.",
         ref="6 C06", note=TRUST + "; SIMD lane semantics and the 64-bit hash arithmetic are not modelled bit-exactly (bound through results)"),
     "C07": dict(
-        tech="TLA+ spec ACStream (Buffer fill/roll + StreamChunkIter, nondeterministic reader) model-checked with TLC over all read schedules and capacities; TLC-generated behaviours (GenStream) replayed into the real code and TLC trace validation (TraceStream) of recorded runs of the real stream search with scripted readers and hooked buffer capacity",
+        tech="TLA+ spec ACStream (Buffer fill/roll + StreamChunkIter, nondeterministic reader) model-checked with TLC over all read schedules and capacities; TLC-generated behaviours (GenStream) replayed into the real code and TLC trace validation of recorded runs (TraceStreamContract: the observable contract, deciding; TraceStream: step-by-step replay through ACStream, drift if only it fails) of the real stream search with scripted readers and hooked buffer capacity",
         text="TLC explores every read-size schedule for every small stream / pattern list / capacity min+{1,2,3,6} and checks that matches equal the in-memory iterator's (MatchPrefix, Complete) and the buffer indices never go wrong; every recorded run of the real StreamFindIter / stream replacement (exhaustive scripts on short streams at minimal capacities, seeded random longer ones up to the default capacity) is replayed action by action through the same specification, with all invariants evaluated at each step.",
         ref="6 C07", note=TRUST + "; hook H1 (buffer capacity override, cfg aho_corasick_verif) is the only instrumentation: reads, writes and closure calls are observed from outside"),
     "C08": dict(
-        tech="TLA+ spec ACStream (chunk emission sites, ChunkConcat invariant) model-checked with TLC; TLC trace validation of every write/closure call of real try_stream_replace_all_with runs; table replacement output compared with the in-memory replacement oracle by TLC",
+        tech="TLA+ spec ACStream (chunk emission sites, ChunkConcat invariant) model-checked with TLC; TLC trace validation of every write/closure call of real try_stream_replace_all_with runs, with short-writing and interrupting writers (TraceStreamContract decides, TraceStream replays through ACStream); table replacement output compared with the in-memory replacement oracle by TLC",
         text="ChunkConcat (the concatenation of emitted chunks is the stream) and the match-chunk alignment are invariants over all schedules/capacities in the model; in the recorded runs each write is one non-match chunk and each closure call one match chunk, and each must be exactly the chunk the specification emits next; try_stream_replace_all outputs are validated against ReplaceOracle.",
         ref="6 C08", note=TRUST + "; hook H1 only"),
     "C09": dict(
@@ -70,7 +70,7 @@ T = {
         text="EarliestOK and IsMatchAgrees are invariants of the search machine for all configurations within bounds; recorded is_match and earliest calls are validated against the same predicates.",
         ref="6 C14"),
     "C18": dict(
-        tech="TLA+ spec ACStream with a failing reader/writer (every failure position x every schedule) model-checked with TLC; TLC trace validation of real runs with injected read, write and closure failures at every position",
+        tech="TLA+ spec ACStream with a failing reader/writer (every failure position x every schedule) model-checked with TLC; TLC trace validation (TraceStreamContract deciding, TraceStream replaying through ACStream) of real runs with injected read, write and closure failures of five io::ErrorKinds at every position",
         text="With MaxFaults=1 the model lets the reader fail at any read and the writer/closure at any emission; ChunkConcat/MatchPrefix/Indices hold in every reachable state including the failed ones and `done` requires a reader-reported end. Real runs with a failure injected at every read index and every emission index (short streams, exhaustive) and random positions (longer) must end with an error (never a panic) and replay through the specification.",
         ref="6 C18", note=TRUST + "; hook H1 only"),
     "C19": dict(
@@ -90,7 +90,7 @@ T = {
         text="Every combination of requested kind x match kind x start kind x 4 option sets is built for collections of diverse shape (none, only empty, duplicates, all 256 bytes, 256-way fan-out, 300-byte pattern, 100/101 patterns, nested, random; thorough: thousands of patterns) under catch_unwind; TLC checks success, the honoured kind, patterns_len/min/max/per-pattern lengths/match kind/start kind, and that the id in a match names a pattern that occurs there. The automatic choice is compared with the model at drift level only.",
         ref="6 C20", note=TRUST + "; limit-exceeding collections (>= 2^24 states) are not attempted"),
     "C16": dict(
-        tech="TLA+ models ACShuffle (special-state id layout, remapper) and ACDfaBoth (interleaved DFA copies) model-checked with TLC; product exploration of the real automata (all reachable states x all bytes x both anchoring arguments) with the TLA+ specification automaton by TLC; trace validation of the documented caller-written loop vs the built-in search",
+        tech="TLA+ models ACShuffle (special-state id layout, remapper) and ACDfaBoth (interleaved DFA copies, premultiplied ids) model-checked with TLC; product exploration of the real automata (all reachable states x all bytes x both anchoring arguments) with the TLA+ specification automaton by TLC; trace validation of the documented caller-written loop vs the built-in search",
         text="For each dumped automaton the local contract (dead absorbing, dead/match special, special => dead/match/start, valid non-empty match lists, start_state errors) is evaluated by TLC on every state of the closure under both anchoring arguments, and the consistent-mode product agrees with the specification; the documented recipe, run on the real automata, is validated against the oracle next to try_find.",
         ref="6 C16"),
 }
